@@ -5,6 +5,7 @@ import json
 import os
 
 from ..ruleutil import *
+from ..elab import eval_function
 from ..elab import Elab
 from ..report import VERIF
 
@@ -289,17 +290,20 @@ def run(ctx):
     cm = ctx.repo.module("litedram.common")
     dfn = cm.functions.get("get_default_cl_cwl")
     if ob3.need(dfn is not None, "common.get_default_cl_cwl vanished"):
+        # the function is evaluated with a symbolic tck: every (cl, cwl) pair it can return, whatever shape the table has in the source
         pairs = {}
-        cur = None
-        for n in ast.walk(dfn):
-            if isinstance(n, ast.If) and isinstance(n.test, ast.Compare) and isinstance(n.test.comparators[0], ast.Constant):
-                mt = n.test.comparators[0].value
-                for s in n.body:
-                    if isinstance(s, ast.Assign) and isinstance(s.value, ast.Tuple):
-                        try:
-                            pairs.setdefault(mt, []).append(ast.literal_eval(s.value))
-                        except Exception:
-                            pass
+        for mt in ("SDR", "DDR2", "DDR3", "DDR4"):
+            try:
+                r_, _ = eval_function(ctx.repo, "litedram.common", "get_default_cl_cwl", [Const(mt), Sym("tck")])
+            except Exception:
+                r_ = None
+            for t_ in subterms(r_) if r_ is not None else ():
+                if isinstance(t_, ListV) and len(t_.items) == 2 and all(isinstance(x, Const) for x in t_.items):
+                    pr = (t_.items[0].v, t_.items[1].v)
+                    if pr not in pairs.setdefault(mt, []):
+                        pairs[mt].append(pr)
+        if not ob3.need(len(pairs) == 4, "default CL/CWL table not resolved for every memory type (%s)" % sorted(pairs)):
+            pairs = {}
         for mt, pl in pairs.items():
             fname = FUNCS.get(mt)
             lits = dict_literals(m.functions[fname]) if fname in m.functions else {}
